@@ -377,7 +377,16 @@ func runStress(rec *Rec, sc *StressScen) {
 				}
 			}(g)
 		}
-		for i := 0; i < 20+37*k%400; i++ {
+		// a batch queued right before the cancellation: the accept loop is still working through it when it notices
+		for n := 0; n < 24; n++ {
+			ta := parseAddr(sc.Addr)
+			ta.Port = 20000 + (k*1000+500+n)%40000
+			fc := NewFakeConn(950000+n, ta, nil)
+			fc.quiet = true
+			fc.EOF()
+			lis.Offer(fc)
+		}
+		for i := 0; i < (37*k)%60; i++ {
 			runtime.Gosched()
 		}
 		r.stop()
